@@ -3,7 +3,7 @@ let hexi i = Printf.sprintf "%x" i
 let wout c =
   match next c with
   | ":ei" -> SEintr
-  | ":er" -> SErr
+  | ":er" -> SErr (n_tok (next c))
   | ":x" -> SEv (EvExit (n_tok (next c)))
   | ":k" -> let s = n_tok (next c) in SEv (EvKill (s, bool_tok (next c)))
   | ":s" -> SEv (EvStop (n_tok (next c)))
